@@ -1318,3 +1318,51 @@ Proof.
   - apply iv_run_aligned; [assumption|]. rewrite F. assumption.
   - intros pre now c post -> H. apply iv_run_cancelled_prefix; assumption.
 Qed.
+
+(* ---------------------------------------------------------------------- *)
+(* after ANY driver answer every expired timer has been woken               *)
+
+Lemma wakers_of_In : forall k wk m, In (k, Some wk) m -> In wk (wakers_of m).
+Proof.
+  induction m as [|[k' [wk'|]] m IH]; cbn; intros H; [contradiction| |].
+  - destruct H as [H|H]; [inversion H; auto|auto].
+  - destruct H as [H|H]; [discriminate|auto].
+Qed.
+
+Theorem poll_wakes_all_expired : forall ans now w,
+  wf w -> ans <> DError ->
+  exists ws w',
+    poll_with ans now w = Ok (ws, w') /\ wf w' /\
+    (forall k s, In (k, s) (wmap w) -> kdl k <= now ->
+       is_completed k w' = true /\ forall wk, s = Some wk -> In wk ws) /\
+    (forall k, In k (keys_of (wmap w')) -> now < kdl k) /\
+    (forall e, In e (wmap w) -> now < kdl (fst e) -> In e (wmap w')).
+Proof.
+  intros ans now w W N.
+  destruct (wake_after_every_poll true ans now now w N) as [_ E].
+  destruct (wake now w) as [ws w'] eqn:Ew. exists ws, w'. split; [exact E|].
+  split; [eapply wake_wf; eauto|].
+  pose proof Ew as Ew2. rewrite wake_spec in Ew2 by assumption. inversion Ew2; subst. clear Ew2.
+  split; [|split].
+  - intros k s Hin Hd. split.
+    + destruct (wake_fires w now k s _ _ W Hin Hd Ew) as [C _]. exact C.
+    + intros wk ->. apply (wakers_of_In k). apply filter_In. split; [assumption|].
+      unfold due. cbn. apply Z.leb_le. assumption.
+  - intros k Hk. cbn [wmap] in Hk. unfold keys_of in Hk. apply in_map_iff in Hk as [e [<- He]].
+    apply filter_In in He as [_ Hn]. unfold not_due in Hn. apply Z.ltb_lt. assumption.
+  - intros e He Hlt. cbn [wmap]. apply filter_In. split; [assumption|].
+    unfold not_due. apply Z.ltb_lt. assumption.
+Qed.
+
+(* the counter-model: however often the driver is polled, as long as every
+   poll finds a completion nothing is ever woken *)
+Lemma timeout_only_stuck : forall ts w,
+  (forall t, In t ts -> fst t = DOk \/ fst t = DInterrupted) ->
+  timeout_only_run w ts = Ok (map (fun _ => []) ts, w).
+Proof.
+  induction ts as [|[ans now] r IH]; intros w H; [reflexivity|].
+  cbn [timeout_only_run map].
+  assert (A : ans = DOk \/ ans = DInterrupted) by (apply (H (ans, now)); cbn; auto).
+  assert (E : poll_with_timeout_only ans now w = Ok ([], w)) by (destruct A; subst; reflexivity).
+  rewrite E. cbn. rewrite IH by (intros t Ht; apply H; cbn; auto). reflexivity.
+Qed.
